@@ -58,6 +58,8 @@ pub struct Broker {
     pub plan: ConnectSpec,
     pub connect_seen: Option<rc::Connect>,
     pub connack_sent: bool,
+    /// Maximum QoS of the CONNACK that accepted the current connection
+    pub announced_max_qos: Option<u8>,
     pub outstanding: Vec<Outst>,
     /// acknowledgements already sent in this broker session (type, id)
     pub acked: Vec<(Outst, u8)>,
@@ -89,6 +91,7 @@ impl Broker {
             plan: ConnectSpec::default(),
             connect_seen: None,
             connack_sent: false,
+            announced_max_qos: None,
             outstanding: Vec::new(),
             acked: Vec::new(),
             q2_answered: Vec::new(),
@@ -307,6 +310,10 @@ impl Broker {
                 }
                 self.session_exists = true;
                 let p = self.connack_packet(can_resume, 0);
+                self.announced_max_qos = match &p {
+                    Packet::ConnAck { props, .. } => props.iter().find_map(|x| if let Prop::MaximumQoS(q) = x { Some(*q) } else { None }),
+                    _ => None,
+                };
                 self.send(tr, p);
                 self.connack_sent = true;
             }
@@ -726,6 +733,7 @@ pub struct World {
     pub cancel_disconnect_midway: bool,
     pub excluded_disconnect_cancels: u32,
     pub tx_len: usize,
+    pub cfg_downgrade: bool,
     guard_cancel: bool,
 }
 
@@ -741,6 +749,7 @@ impl World {
             jitter: 0,
             max_polls: 6_000_000,
             cancel_disconnect_midway: false,
+            cfg_downgrade: false,
             excluded_disconnect_cancels: 0,
             tx_len: 0,
             guard_cancel: false,
@@ -973,6 +982,7 @@ pub fn run_case_with(case: &Case, tweak: impl FnOnce(&mut World)) -> Trace {
 
 fn interpret(case: &Case, w: &mut World) {
     let cfg = &case.cfg;
+    w.cfg_downgrade = cfg.downgrade;
     let mut rx = vec![0u8; cfg.rx];
     let mut tx = vec![0u8; cfg.tx];
     let will_topic = cfg.will.as_ref().map(|wl| wl.topic.name());
@@ -1072,8 +1082,10 @@ fn do_step(w: &mut World, tr: &Tr, conn: &mut Connection<'_, '_, SimIo>, at: (us
                 qos: spec.qos,
             };
             let cx = w.op_start(tr, at, OpKind::Publish, Some(req));
-            // QoS 0 publish is documented as not cancel-safe: never cancelled by the harness
-            let cancel = if spec.qos == 0 { None } else { spec.cancel };
+            // QoS 0 publish is documented as not cancel-safe: never cancelled by the harness. With
+            // auto-downgrade a QoS 1/2 request becomes such a publish under Maximum QoS 0.
+            let downgraded_to_0 = w.cfg_downgrade && w.broker.announced_max_qos == Some(0);
+            let cancel = if spec.qos == 0 || downgraded_to_0 { None } else { spec.cancel };
             let (out, polls, busy) = w.run(tr, conn.publish(p), cancel, TimePolicy::Frozen);
             let res = match out {
                 Outcome::Done(Ok(Some(op))) => {
